@@ -68,6 +68,8 @@ def run(ctx: Ctx):
         "the reconstructions agree with each other (C03 VIEW-DELEGATES)",
         "NOT decided: the CP-PLSR clauses (numeric)",
     )
+    res.rule("STATS-FROM-FIT", "CP_PLSR.predict / transform centre the query data with the means stored by fit: no statistic (mean / std / ...) of the query batch is computed, directly or through a helper whose statistic parameter keeps its None default", floor=2)
+    ctx.guarded(stats_from_fit, ctx)
     for cq, spec in REGRESSORS.items():
         ci = repo.cls(cq)
         fit = ci.methods.get("fit")
@@ -140,3 +142,106 @@ def run(ctx: Ctx):
                 ctx.finding("FRESH-EXPOSURE", predict, r, "predict does not contract partial_tensor_to_vec(X) with the exposed weight tensor / vectorised weights")
         if not rets:
             raise AnalysisError(f"{predict.qname}: no return")
+
+
+# ---------------------------------------------------------------------------------
+# STATS-FROM-FIT: the query batch is centred with the training statistics
+# ---------------------------------------------------------------------------------
+STAT_FUNCS = {"mean", "std", "var", "median", "average"}
+PLSR = "tensorly.regression.cp_plsr.CP_PLSR"
+QUERY_METHODS = {"predict": ["X"], "transform": ["X", "Y"]}
+
+
+def _stat_sites(fnode, tainted, none_params):
+    """statistic calls on a tainted value; `if p is None:` bodies are skipped when p is known
+    to be given (not in none_params)"""
+    out = []
+
+    def walk(stmts, tainted):
+        for s in stmts:
+            if isinstance(s, ast.If):
+                t = s.test
+                if isinstance(t, ast.Compare) and len(t.ops) == 1 and isinstance(t.left, ast.Name) and isinstance(t.comparators[0], ast.Constant) and t.comparators[0].value is None:
+                    is_none = isinstance(t.ops[0], (ast.Is, ast.Eq))
+                    known_none = t.left.id in none_params
+                    known_given = t.left.id in given_params
+                    if known_none or known_given:
+                        take_body = (is_none and known_none) or (not is_none and known_given)
+                        walk(s.body if take_body else s.orelse, tainted)
+                        continue
+                walk(s.body, tainted)
+                walk(s.orelse, tainted)
+                continue
+            for c in ast.walk(s):
+                if isinstance(c, ast.Call) and call_name(c) in STAT_FUNCS and c.args and any(isinstance(n, ast.Name) and n.id in tainted for n in ast.walk(c.args[0])):
+                    out.append(c)
+            if isinstance(s, ast.Assign) and any(isinstance(n, ast.Name) and n.id in tainted for n in ast.walk(s.value)):
+                for tg in s.targets:
+                    for n in ast.walk(tg):
+                        if isinstance(n, ast.Name):
+                            tainted = tainted | {n.id}
+            if isinstance(s, (ast.For, ast.While, ast.With, ast.Try)):
+                walk(getattr(s, "body", []), tainted)
+        return tainted
+
+    given_params = set()
+    return out, walk, given_params
+
+
+def stats_from_fit(ctx: Ctx):
+    """`predict` / `transform` must treat each sample independently of the rest of the batch:
+    the query data is centred with the means stored by `fit` (self.X_mean_, self.Y_mean_), never
+    with statistics recomputed from the query batch (directly or through a helper whose mean
+    parameter keeps its `None` default)."""
+    from ..model import bind_call
+
+    repo, res = ctx.repo, ctx.res
+    ci = repo.cls(PLSR)
+    n = 0
+    for mname, qparams in QUERY_METHODS.items():
+        m = ci.methods.get(mname)
+        if m is None:
+            raise AnalysisError(f"STATS-FROM-FIT: {PLSR}.{mname} vanished")
+        qs = [p for p in qparams if p in m.all_params]
+        if not qs:
+            raise AnalysisError(f"STATS-FROM-FIT: {PLSR}.{mname} no longer takes {qparams}")
+        # names derived from the query arguments
+        tainted = set(qs)
+        changed = True
+        while changed:
+            changed = False
+            for s in own_scope_nodes(m.node):
+                if isinstance(s, ast.Assign) and any(isinstance(x, ast.Name) and x.id in tainted for x in ast.walk(s.value)):
+                    for tg in s.targets:
+                        for x in ast.walk(tg):
+                            if isinstance(x, ast.Name) and x.id not in tainted and not (isinstance(tg, ast.Attribute)):
+                                tainted.add(x.id)
+                                changed = True
+        bad = []
+        for c in own_scope_nodes(m.node):
+            if not isinstance(c, ast.Call):
+                continue
+            if call_name(c) in STAT_FUNCS and c.args and any(isinstance(x, ast.Name) and x.id in tainted for x in ast.walk(c.args[0])):
+                bad.append((c, None))
+                continue
+            ct = repo.resolve_call(m, m.module, c)
+            if ct.kind == "repo" and len(ct.funcs) == 1 and not ct.cha and ct.funcs[0].module.name.startswith("tensorly.regression"):
+                g = ct.funcs[0]
+                b = bind_call(c, g, ct.bound)
+                inner_t = {p for p, a in b.params.items() if any(isinstance(x, ast.Name) and x.id in tainted for x in ast.walk(a))}
+                if not inner_t:
+                    continue
+                given = {p for p, a in b.params.items() if not (isinstance(a, ast.Constant) and a.value is None)}
+                none_p = {p for p in g.all_params if p not in given and p in g.defaults and isinstance(g.defaults[p], ast.Constant) and g.defaults[p].value is None}
+                sites, walk, given_params = _stat_sites(g.node, inner_t, none_p)
+                given_params |= given
+                walk(g.node.body, set(inner_t))
+                for x in sites:
+                    bad.append((c, (g, x)))
+        n += 1
+        res.instance("STATS-FROM-FIT", f"{m.qname}", sample={"query_arguments": qs, "batch_statistics": [src(c)[:50] for c, _ in bad], "ok": not bad})
+        for c, via in bad:
+            extra = f" (through `{via[0].name}`: `{src(via[1])[:50]}`, reached because the call leaves the helper's statistic parameter at its `None` default)" if via else ""
+            ctx.finding("STATS-FROM-FIT", m, c, f"`{ci.name}.{mname}` computes a statistic of the query batch at `{src(c)[:60]}`{extra}: a sample's result then depends on which other samples are in the batch, a single sample is centred to zero, and predictions no longer equal transform(X) contracted with the fitted coefficients -- the means stored by fit must be used", construct=f"{ci.name}.{mname}: statistic of the query batch {src(c)[:50]}")
+    if n == 0:
+        raise AnalysisError("STATS-FROM-FIT: nothing analysed")
